@@ -24,6 +24,7 @@ F1J_SIG = "C08:F1:json-or-tl2-reader-diverges-on-unranked-schema"
 AMP_SIG = "C08:F18:total-allocation-superlinear-zero-size-elements"
 F19_SIG = "C08:F19:json-reader-allocates-tuple-by-nat-member"
 F20_SIG = "C08:F20:default-fill-diverges-infinite-default-value"
+F21_SIG = "C08:F21:reset-recursion-union-first-variant-contains-itself"
 DRIVER_FILES = ["main.go", "ops_tl1.go", "ops_total.go"]
 
 F1_SCHEMA = """
@@ -39,6 +40,13 @@ rec.c x:%rec.c y:int = rec.C;
 JD_SCHEMA = """
 jd.tree {m:#} value:int left:m.0?(jd.tree m) right:m.1?(jd.tree m) = jd.Tree m;
 jd.top m:# t:(jd.tree m) = jd.Top;
+"""
+# Reset() of a union whose first variant holds the union again under a LOCAL mask: the TL default value is finite
+# (mask 0, field absent) but the generated Reset() ignores masks
+RZ_SCHEMA = """
+rz.c0 f0:# f1:f0.1?rz.U = rz.U;
+rz.c1 f0:int = rz.U;
+rz.top x:rz.U = rz.Top;
 """
 # elements that occupy zero bytes on the wire (all fields masked out) inside nested sequences
 AMP_SCHEMA = """
@@ -107,7 +115,7 @@ def run(ctx):
     if not berr:
         corpus = [c for c in repo_corpus(quick) if c[4] and not (quick and c[0] == 'goldmaster')]
         vrng = random.Random(ctx.rng.getrandbits(64))
-        specs = corpus + [fixed_unit(ctx, "f1", F1_SCHEMA), fixed_unit(ctx, "f1u", F1U_SCHEMA), fixed_unit(ctx, "amp", AMP_SCHEMA), fixed_unit(ctx, "jd", JD_SCHEMA)] + \
+        specs = corpus + [fixed_unit(ctx, "f1", F1_SCHEMA), fixed_unit(ctx, "f1u", F1U_SCHEMA), fixed_unit(ctx, "amp", AMP_SCHEMA), fixed_unit(ctx, "jd", JD_SCHEMA), fixed_unit(ctx, "rz", RZ_SCHEMA)] + \
             [fixed_unit(ctx, f"fv{i}", tlb.f1_variant(vrng)) for i in range(2 if quick else 12)] + sane_specs(ctx, 6 if quick else 40)
         units = prepare_units(ctx, specs, bins, driver_files=DRIVER_FILES)
     log('[C08] units ready', round(time.time() - ctx.t0))
@@ -123,7 +131,7 @@ def run(ctx):
 
     def work(u):
         rng = rngs[u.name]
-        is_repo = not (u.name.startswith(("rs", "fv")) or u.name in ("f1", "f1u", "amp", "jd"))
+        is_repo = not (u.name.startswith(("rs", "fv")) or u.name in ("f1", "f1u", "amp", "jd", "rz"))
         if u.kernel_rejected and not is_repo:
             with lock:
                 stats["kernel_rejected"] += 1
@@ -271,6 +279,13 @@ def run(ctx):
                     amp_lines.append(f"rd8 1 {t[0][0]} amp.w 0 {amp_input(L).hex()}")
                 for l in amp_lines:
                     ops.append((l, "amplification", "amp.w"))
+        rz_nodes = tlb.reset_cycle_nodes(u.ins)
+        rzc = {name: tlb.reaches(u.ins, tid, rz_nodes) for tid, name, x in tops} if rz_nodes else {}
+        if u.name == "rz":
+            t = [t for t in tops if t[1] == "rz.top"]
+            c0 = [x for x in u.ins if x["kind"] == "struct" and x.get("tlName") == "rz.c0"]
+            if t and c0:
+                ops.append((f"rd8 1 {t[0][0]} rz.top 0 {c0[0]['tag'].to_bytes(4, 'little').hex()}00000000", "valid", "rz.top"))
         lines = [o[0] for o in ops]
         esz = {}
         names = sorted({o[2] for o in ops})
@@ -301,6 +316,9 @@ def run(ctx):
             if gv.split(" ")[0] in ("panic", "crash") or gv.startswith("driver-error"):
                 if m == "fuel" and gv.startswith("crash") and not ranked_ok:
                     ubad.append((u.name, l, g, F1_SIG if any(tlb.cycle_masked(u.ins, c) for c in cycles) else F1B_SIG, False))
+                elif gv.startswith("crash") and ("stack" in gv or "goroutine" in gv) and m != "fuel" and rzc.get(name):
+                    # the model answers (the value is finite), Go dies in Reset() of an absent field
+                    ubad.append((u.name, l + f"   (model: {m})", g, F21_SIG, False))
                 else:
                     ubad.append((u.name, l, g, f"C08:reader-crash:{u.name}:{name}", False))
                 continue
@@ -408,6 +426,8 @@ def run(ctx):
                 if not ranked_ok and ust["diverging_inputs"] and gv.startswith("crash") and ("stack" in gv or "goroutine" in gv):
                     # the default-filling / TL2 reader of an unranked schema recurses like the TL1 reader does
                     ubad.append((u.name, l, g, F1J_SIG, False))
+                elif gv.startswith("crash") and ("stack" in gv or "goroutine" in gv) and rzc.get(l.split(" ")[1]):
+                    ubad.append((u.name, l, g, F21_SIG, False))
                 elif gv.startswith("crash") and ("stack" in gv or "goroutine" in gv) and extc.get(l.split(" ")[1]):
                     # default filling of an absent JSON member / TL2 field of a type whose default value is infinite
                     # (the TL1 reader of the same schema may well be total: the unit can be ranked)
@@ -455,7 +475,7 @@ def run(ctx):
             except OSError:
                 pass
     for name, l, g, sig, no_input in bad:
-        if sig in seen and sig in (F1_SIG, F1B_SIG, F1J_SIG, AMP_SIG, F19_SIG, F20_SIG):
+        if sig in seen and sig in (F1_SIG, F1B_SIG, F1J_SIG, AMP_SIG, F19_SIG, F20_SIG, F21_SIG):
             continue
         seen.add(sig)
         if len(ctx.violations) < 40:
